@@ -72,6 +72,49 @@ def expected_free_symbols_circuit(ops):
     return out
 
 
+def boundvars_bad():
+    """ground: parameters that carry BOUND variables of their own (unevaluated Sum / Product / Integral): the reported free symbols
+    are the symbols the parameter still depends on - the summation / integration variable is not one of them - for gates,
+    wrapped gates, operations, phase operations and circuits; after binding the remaining ones nothing is free."""
+    from orquestra.quantum.circuits import RX, RZ, U3, Circuit, MultiPhaseOperation
+
+    k, t = sympy.Symbol("k"), sympy.Symbol("t")
+    e1 = sympy.Sum(x**k, (k, 1, 3))
+    e2 = sympy.Integral(sympy.cos(t), (t, 0, y))
+    e3 = sympy.Product(z + k, (k, 1, 2))
+    names = lambda ss: [str(q) for q in ss]  # noqa: E731
+    cases = [
+        ("RX(Sum)", RX(e1), ["x"]), ("RZ(Integral) dagger", RZ(e2).dagger, ["y"]), ("RX(Product) controlled", RX(e3).controlled(1), ["z"]),
+        ("U3(Sum, Integral, x)", U3(e1, e2, x), ["x", "y"]), ("operation", RX(e1 + y)(0), ["x", "y"]),
+        ("phase operation", MultiPhaseOperation((e1, e2)), ["x", "y"]),
+    ]
+    for what, g, want in cases:
+        got = names(g.free_symbols)
+        if sorted(got) != want or len(got) != len(set(got)):
+            return f"{what}: free symbols {got}, the parameters depend on {want}"
+    c = Circuit([RX(e1)(0), RZ(e2)(1), RX(y)(0)])
+    if names(c.free_symbols) != ["x", "y"]:
+        return f"circuit: free symbols {names(c.free_symbols)}, want ['x', 'y'] in order of first appearance"
+    b = c.bind({x: 0.5, y: 0.25})
+    if list(b.free_symbols):
+        return f"fully bound circuit still reports free symbols {names(b.free_symbols)}"
+    for op in b.operations:
+        if op.free_symbols if hasattr(op, "free_symbols") else op.gate.free_symbols:
+            return f"fully bound operation {op} still reports free symbols"
+    return None
+
+
+def _w_boundvars(res, p):
+    res.d["ground_instances"] += 1
+    res.d["instances"] -= 1
+    res.ob(1)
+    bad = boundvars_bad()
+    if bad:
+        _cand(res, "free-symbols-with-bound-variables", bad, p)
+    else:
+        res.ob(0, 1, "ground-structure")
+
+
 def make_gate(gname, enames):
     ps = [EXPRS[e] for e in enames]
     if gname == "CG":
@@ -213,7 +256,7 @@ def work(item):
     except AttributeError:
         pass
     try:
-        {"gate": _w_gate, "circ": _w_circ, "refuse": _w_refuse, "nongate": _w_nongate, "cplx": _w_cplx, "reuse": _w_reuse}[kind](res, p)
+        {"gate": _w_gate, "circ": _w_circ, "refuse": _w_refuse, "nongate": _w_nongate, "cplx": _w_cplx, "reuse": _w_reuse, "boundvars": _w_boundvars}[kind](res, p)
     except Refuse as e:
         res.ob(1)
         res.inconc(f"translation refused: {e}")
@@ -450,6 +493,7 @@ def instances(tier, seed):
     ]
     for si, (seq, mnames) in enumerate(evolving):
         items.append(("reuse", {"circuits": [[[list(o) for o in ops], n] for ops, n in seq], "map": mnames[0], "maps": mnames, "label": f"one map object updated in place {mnames} over circuit sequence #{si}"}))
+    items.append(("boundvars", {"label": "parameters with bound variables (Sum / Product / Integral)"}))
     for gid in ["X|pow(2)", "RX(0.3)|pow(0.5)", "H|exp", "T|dagger|pow(3)", "RZ(0.2)|exp", "X|pow(2)|c1"]:
         items.append(("refuse", {"gid": gid, "label": gid}))
     for es in (["x", "y", "num", "x+y"], ["2x", "-x"], ["x*y", "z", "y", "x", "num", "x/2", "y-x", "x"]):
@@ -491,10 +535,10 @@ def replay(data):
     p = {k: v for k, v in inp.items() if k not in ("clause", "values")}
     p.setdefault("label", "replay")
     try:
-        kind = "cplx" if clause == "bind-then-evaluate-complex" else "reuse" if "circuits" in p else "gate" if "gate" in p else "circ" if "ops" in p else "refuse" if "gid" in p else "nongate"
+        kind = "boundvars" if clause == "free-symbols-with-bound-variables" else "cplx" if clause == "bind-then-evaluate-complex" else "reuse" if "circuits" in p else "gate" if "gate" in p else "circ" if "ops" in p else "refuse" if "gid" in p else "nongate"
         if kind == "circ":
             p["ops"] = [(g, e, tuple(q)) for g, e, q in p["ops"]]
-        {"gate": _w_gate, "circ": _w_circ, "refuse": _w_refuse, "nongate": _w_nongate, "cplx": _w_cplx, "reuse": _w_reuse}[kind](r, p)
+        {"gate": _w_gate, "circ": _w_circ, "refuse": _w_refuse, "nongate": _w_nongate, "cplx": _w_cplx, "reuse": _w_reuse, "boundvars": _w_boundvars}[kind](r, p)
         cands = [c for c in r.d["candidates"] if c["clause"] == clause]
         if not cands:
             return False, "no violation on re-execution"
